@@ -207,7 +207,8 @@ Proof.
   intros st e st' H Hs. destruct e; unfold step in Hs.
   - (* EStart *)
     pose proof (inv_flush_if flush_at_start st H) as H1. destruct (flush_if flush_at_start st) as [stk top buf nxt] eqn:E.
-    unfold number_element, element_before_attrs in Hs. cbn [h_stack h_top h_buf h_next] in Hs.
+    cbn [h_stack h_top h_buf h_next] in Hs. destruct (is_nil stk && existsb is_ielem top); [discriminate|].
+    unfold number_element, element_before_attrs in Hs.
     destruct (number_attrs (N.succ nxt) (order_attrs (is_nil stk) attrs)) as [l n'] eqn:En. inversion Hs; subst; clear Hs.
     destruct (number_attrs_ok _ _ _ _ En) as [H2 _].
     unfold inv, total in *. cbn [h_stack h_top h_next stack_ix] in *. unfold frame_ix. cbn [f_idx f_attrs f_kids rev]. unfold flat at 2. cbn [flat_map]. rewrite app_nil_r.
